@@ -80,6 +80,25 @@ func run(line string) (res string) {
 		}
 	}()
 	f := strings.Fields(line)
+	if f[0] == "seq" {
+		// several calls of ONE method on ONE connection with different flags: "seq <hexmethod> <flags,flags,...>" -> the bytes each Send wrote
+		sc := &scriptConn{}
+		conn := varlink.VerifNewConnection(sc)
+		var outs []string
+		for _, fs := range strings.Split(f[2], ",") {
+			fl, _ := strconv.ParseUint(fs, 10, 64)
+			before := len(sc.wrote)
+			_, err := conn.Send(context.Background(), string(vt.Unhex(f[1])), nil, fl)
+			if err != nil {
+				outs = append(outs, "refused")
+			} else {
+				outs = append(outs, vt.Hx(sc.wrote[before:]))
+			}
+		}
+		return "seq " + strings.Join(outs, "|")
+	}
+	nilOut := strings.HasPrefix(f[0], "nil:") // the caller passes no out value (a method without out parameters)
+	f[0] = strings.TrimPrefix(f[0], "nil:")
 	flags, _ := strconv.ParseUint(f[0], 10, 64)
 	nrecv, _ := strconv.Atoi(f[3])
 	sc := &scriptConn{}
@@ -107,9 +126,19 @@ func run(line string) (res string) {
 	out := []string{"send=ok wrote=" + vt.Hx(sc.wrote)}
 	for i := 0; i < nrecv; i++ {
 		var raw json.RawMessage
-		fl, err := recv(ctx, &raw)
+		var fl uint64
+		var err error
+		if nilOut {
+			fl, err = recv(ctx, nil)
+		} else {
+			fl, err = recv(ctx, &raw)
+		}
 		if err != nil {
 			out = append(out, "recv="+classify(err))
+			continue
+		}
+		if nilOut {
+			out = append(out, fmt.Sprintf("recv=ok %d -", fl))
 			continue
 		}
 		ps := "N"
